@@ -1,5 +1,6 @@
 import Huginn.Model.FlowProgs
 import Huginn.Model.Uptime
+import Huginn.Props.C19
 set_option linter.unusedSimpArgs false
 /-
 Bridge between the two models of `check_ts_tcp` (huginn-net-tcp/src/uptime.rs):
@@ -156,5 +157,23 @@ theorem tcp_trace_bridge (fc : Seg → Bool) (tr : List (Seg × Nat)) (htr : ∀
         (checkTs (toCache m) s.time s.wall (toAddrKey ⟨s.src, s.dst, fc s⟩).conn (fc s) ts).2 := h2
     rw [hhead]
     exact congrArg (List.cons _) this
+
+/-- **C19 on the cache-program analyzer.** For every history of timestamped segments (any number of
+connections, both directions interleaved) that fits a fresh tracker of capacity `cap` and avoids the
+known-finding classes, what the uptime analyzer *as a cache program* (the model C07/C10/C11/C01 are
+about) reports satisfies C19's per-endpoint specification. -/
+theorem run_meets_spec_cache (fc : Seg → Bool) (tr : List (Seg × Nat)) (htr : ∀ x ∈ tr, x.1.tsval = some x.2)
+    (cap : Nat) (hcap : tr.length ≤ cap)
+    (hwf : ∀ x ∈ tr, x.1.time ≤ cacheTtlMs ∧ x.2 < U32)
+    (hkf : Huginn.Props.C19.noKF [] (tr.map (fun x => toObs fc x.1 x.2))) :
+    Huginn.Uptime.Spec.specRun [] (tr.map (fun x => toObs fc x.1 x.2))
+      (((tcpAnalyzer uptimeParams fc).runOuts ({ cap := cap }, ()) (tr.map (·.1))).map (fun po => toOut po.2)) = true := by
+  rw [tcp_trace_bridge fc tr htr]
+  refine Huginn.Props.C19.run_meets_spec_partial _ (toCache { cap := cap }) [] ?_ ?_ ?_ hkf
+  · exact ⟨fun k m _ => rfl, fun k t v h => by cases h⟩
+  · simp [toCache]; exact hcap
+  · intro o ho
+    obtain ⟨x, hx, rfl⟩ := List.mem_map.1 ho
+    exact hwf x hx
 
 end Huginn.Props.C19Bridge
